@@ -84,21 +84,42 @@ def is_filter_of(lst, ALL, keep, tag):
             for q in range(len(xs)):
                 parts.append(z3.Implies(z3.And(keep(aget(z3.IntVal(i))), pos == q), xs[q] == aget(z3.IntVal(i))))
         return z3.And(*parts)
-    src = getattr(lst, 'src', None)
-    if src is None:
+    prov = provenance(lst)
+    if prov is None:
         return z3.BoolVal(False)
+    src, pos = prov
     j, k, i = z3.Int('j!' + tag), z3.Int('k!' + tag), z3.Int('i!' + tag)
-    pos = getattr(lst, 'pos', None)
     if pos is not None:
         # the witness of "every kept element occurs" is the inverse provenance ghost (stronger than the existential statement)
-        complete = z3.ForAll([i], z3.Implies(z3.And(i >= 0, i < an, keep(aget(i))), z3.And(pos[i] >= 0, pos[i] < lst.n, src[pos[i]] == i)))
+        complete = z3.ForAll([i], z3.Implies(z3.And(i >= 0, i < an, keep(aget(i))), z3.And(pos(i) >= 0, pos(i) < lst.n, src(pos(i)) == i)))
     else:
-        complete = z3.ForAll([i], z3.Implies(z3.And(i >= 0, i < an, keep(aget(i))), z3.Exists([j], z3.And(j >= 0, j < lst.n, src[j] == i))))
+        complete = z3.ForAll([i], z3.Implies(z3.And(i >= 0, i < an, keep(aget(i))), z3.Exists([j], z3.And(j >= 0, j < lst.n, src(j) == i))))
     return z3.And(
         lst.n >= 0,
-        z3.ForAll([j], z3.Implies(z3.And(j >= 0, j < lst.n), z3.And(src[j] >= 0, src[j] < an, keep(aget(src[j])), lst.arr[j] == aget(src[j])))),
-        z3.ForAll([j, k], z3.Implies(z3.And(j >= 0, j < k, k < lst.n), src[j] < src[k])),
+        z3.ForAll([j], z3.Implies(z3.And(j >= 0, j < lst.n), z3.And(src(j) >= 0, src(j) < an, keep(aget(src(j))), lst.arr[j] == aget(src(j))))),
+        z3.ForAll([j, k], z3.Implies(z3.And(j >= 0, j < k, k < lst.n), src(j) < src(k))),
         complete)
+
+
+def provenance(lst, depth=0):
+    """(src, pos) as functions on index terms, relative to the base list of the study (ALL / the stored protos), composed through any
+    chain of comprehension filters and element-wise conversions the code happens to use (a pre-filter, a second filter, ...)."""
+    if depth > 6:
+        return None
+    ident = (lambda j: j), (lambda i: i)
+    conv = getattr(lst, 'conv_of', None)
+    if conv is not None:
+        return provenance(conv, depth + 1)
+    src = getattr(lst, 'src', None)
+    parent = getattr(lst, 'parent', None)
+    if src is None or (not isinstance(lst, TM.ProvList) and parent is None):
+        return ident                      # a base list
+    pos = getattr(lst, 'pos', None)
+    up = provenance(parent, depth + 1) if parent is not None else ident
+    if up is None:
+        return None
+    usrc, upos = up
+    return (lambda j: usrc(src[j])), ((lambda i: pos[upos(i)]) if (pos is not None and upos is not None) else None)
 
 
 def ids_of(lst):
@@ -143,7 +164,7 @@ def setup_world(run, nall=None, finite_inc=None, m_max=None):
         run.inc_bits = bs
         run.inc0 = lambda x: z3.Or(*[z3.And(x == i, bs[i]) for i in range(finite_inc)])
         run.c0 = z3.Sum([z3.If(b, 1, 0) for b in bs])
-        run.inc0_set = TM.PredSet(run.inc0, run.c0)
+        run.inc0_set = TM.PredSet(run.inc0, run.c0, finite=list(range(finite_inc)))
         run.card_lemma = z3.BoolVal(True)
         run.subset = z3.And(*[z3.Implies(bs[i], z3.And(1 <= i, z3.IntVal(i) <= run.m)) for i in range(finite_inc)])
         run.assume(run.m >= 0)
@@ -559,16 +580,83 @@ class ServiceRef:
     pass
 
 
+TRIALP = lambda: pm.registry().msgs['vizier.Trial']
+CONV = 'vizier._src.pyvizier.oss.proto_converters'
+conv_id = None
+conv_ident = None
+_STATUS_TABLE = {}
+
+
+def status_table():
+    """proto Trial.State -> TrialStatus, DERIVED by executing the real `_to_pyvizier_trial_status` on every enum value."""
+    key = source.REPO
+    if key not in _STATUS_TABLE:
+        mod = ModuleInfo.get(CONV)
+        fn = mod.funcs['_to_pyvizier_trial_status']
+        states = pm.registry().enums['vizier.Trial.State'].values
+        tab = {}
+        for name, num in states.items():
+            paths = E.explore(lambda it, num=num: it.invoke(E.FuncVal(mod, fn), [num], {}))
+            vals = {p.value for p in paths if p.kind == 'return' and isinstance(p.value, str)}
+            if len(paths) != 1 or len(vals) != 1:
+                raise Unsupported('_to_pyvizier_trial_status(%s) is not a function of the state alone' % name)
+            tab[num] = vals.pop()
+        _STATUS_TABLE[key] = tab
+    return _STATUS_TABLE[key]
+
+
+def conv_term(p):
+    """the pyvizier trial (id, status, identity) that TrialConverter.from_proto makes of a stored proto term"""
+    global conv_id, conv_ident
+    if conv_id is None:
+        conv_id = z3.Function('conv_trial_id', pm.msg_sort(TRIALP()), z3.IntSort())
+        conv_ident = z3.Function('conv_trial_ident', pm.msg_sort(TRIALP()), z3.IntSort())
+    st = pm.accessor(TRIALP(), 'state')(p)
+    status = TM.status_lit('UNKNOWN')
+    for num, name in sorted(status_table().items(), reverse=True):
+        status = z3.If(st == num, TM.status_lit(name), status)
+    return PT.mk(conv_id(p), status, conv_ident(p))
+
+
+def setup_protos(run, nall):
+    """the study as stored: PROTOS (creation order, what ListTrials returns); ALL = its element-wise conversion"""
+    arr = z3.Const('PROTOS', z3.ArraySort(z3.IntSort(), pm.msg_sort(TRIALP())))
+    run.PROTOS = SymList(run.ALL.n, arr, TRIALP())
+    if nall is None:
+        i = z3.Int('i!pr')
+        run.axiom(z3.ForAll([i], z3.Implies(z3.And(i >= 0, i < run.ALL.n), run.ALL.arr[i] == conv_term(arr[i]))))
+    else:
+        for i in range(nall):
+            run.assume(run.ALL.arr[i] == conv_term(arr[i]))
+            st = pm.accessor(TRIALP(), 'state')(arr[i])
+            run.assume(z3.And(st >= 1, st <= 5))
+
+
 def _list_trials(it, args, kw):
-    it.run.event('ListTrials')
-    return Obj('opaque:ListTrialsResponse', {'trials': Obj('opaque:protos', {})})
+    run = it.run
+    run.event('ListTrials')
+    p = run.PROTOS
+    return Obj('opaque:ListTrialsResponse', {'trials': SymList(p.n, p.arr, p.elem)})
 
 
 def _from_protos(it, args, kw):
-    # C09 (assumed): conversion keeps the id, maps SUCCEEDED/INFEASIBLE -> COMPLETED, ACTIVE -> ACTIVE, ...; order preserved
-    it.run.assumed.add('TrialConverter.from_protos keeps order and ids and maps proto states to TrialStatus as in _to_pyvizier_trial_status (C09)')
+    """TrialConverter.from_protos: element-wise, order preserving (C09); id/identity are functions of the proto, the status is the
+    real `_to_pyvizier_trial_status` of its state."""
+    it.run.assumed.add('TrialConverter.from_protos is element-wise and order preserving; the status of a converted trial is _to_pyvizier_trial_status(state) '
+                       '(table derived from the real function on every run)')
     run = it.run
-    return SymList(run.ALL.n, run.ALL.arr, TM.PT_KIND)
+    xs = args[-1]
+    conc_ = M.try_iterate(it, xs)
+    if conc_ is not None:
+        return [conv_term(E.to_z3(x)) for x in conc_]
+    if not isinstance(xs, SymList):
+        raise Unsupported('TrialConverter.from_protos(%r)' % (xs,))
+    out = run.fresh('converted', z3.ArraySort(z3.IntSort(), PT))
+    j = z3.Int('j!cv')
+    run.axiom(z3.ForAll([j], z3.Implies(z3.And(j >= 0, j < xs.n), out[j] == conv_term(xs.arr[j]))))
+    r = SymList(xs.n, out, TM.PT_KIND)
+    r.conv_of = xs
+    return r
 
 
 def _service_getattr(it, v, a):
@@ -588,7 +676,7 @@ def _vg(it, v, a):
 
 
 M.value_getattr_hook = _vg
-E.MODELS['vizier._src.pyvizier.oss.proto_converters:TrialConverter.from_protos'] = _from_protos
+E.MODELS[CONV + ':TrialConverter.from_protos'] = _from_protos
 
 
 def trial_filter_class():
@@ -681,6 +769,7 @@ def service_entry(cfg, nall=None):
     def entry(it):
         run = it.run
         setup_world(run, nall, None if nall is None else 8, None if nall is None else 4)
+        setup_protos(run, nall)
         kw = gt_kwargs(run, cfg)
         run.kw = kw
         run.keep = TM.keep_fn(kw)
@@ -793,6 +882,23 @@ def history_obligations(chk, tier, pool):
     s.add(z3.Not(z3.Implies(z3.And(ex_c[3], st_c[3] == COMPLETED), deliv[ident_c[3]])))
     cti = ckit.check_with_deadline(s, 10000)
     f13 = chk.finding_for(name)
+    # bounded native search through the real service (never counted as proved): histories OUTSIDE the class of finding 13
+    hs, hraw = pool.get('history_search')
+    bound = ('scripted + seeded random histories (<= 8 steps: suggest 1..3, complete feasible/infeasible in any order, delete ACTIVE trials; policy rebuilt per '
+             'request and kept alive) through the real VizierServicer + PythiaServicer with a recording designer; oracle from the property text')
+    if hs is None:
+        chk.error(name + '.native_search', 'bounded native history search did not run: %s' % hraw[-500:])
+    elif hs.get('failing'):
+        w = hs['failing'][0]
+        chk.bounded_standin(name + '.native_search', bound, 'violated', {'histories': hs.get('histories'), 'failing': hs['failing'][:2]})
+        chk.obligation(name, 'history', 'native-history-search', report.VIOLATED, time.time() - t0,
+                       detail={'histories': hs.get('histories'), 'first_failing': w},
+                       model='history (no completed trial is ever deleted -- outside finding 13): %s\nviolations: %s' % (json.dumps(w.get('trace')), json.dumps(w.get('violations'))),
+                       replay={'driver': 'replay/c12_replay.py history_search', 'history': w.get('ops'), 'trace': w.get('trace'), 'violations': w.get('violations'),
+                               'policy_kept_alive': w.get('policy_kept_alive')}, reproduced=True)
+        return
+    else:
+        chk.bounded_standin(name + '.native_search', bound, 'held', {'histories': hs.get('histories')})
     res, raw = pool.get('history')
     det = {'counterexample_to_induction': str(cti), 'state': 'ids {1,2} exist, inc = {1,2,3} (3 = deleted max-id trial, delivered); create -> id 3 again, new identity',
            'native_history': (res or {}).get('events'), 'native_updates': (res or {}).get('updates')}
@@ -998,6 +1104,7 @@ def main(tier):
         chk.assume(a)
     pool = ckit.ReplayPool()
     pool.start('history', 'c12_replay.py', ['history'])
+    pool.start('history_search', 'c12_replay.py', ['history_search'], {'seed': 12, 'random': 24 if tier == 'quick' else 120, 'max_len': 8})
     lean_check(chk, tier)
 
     # ---- loader
@@ -1060,4 +1167,9 @@ def gt_payload(run, model, impl):
         for s in TM.STATUSES:
             if model.eval(TM.status_lit(s), model_completion=True).eq(v):
                 args['status_matches'] = s
-    return {'impl': impl, 'args': args}
+    out = {'impl': impl, 'args': args}
+    if impl == 'service' and hasattr(run, 'PROTOS'):
+        names = {v: k for k, v in pm.registry().enums['vizier.Trial.State'].values.items()}
+        n = conc(run.PROTOS.n) or 0
+        out['states'] = [names.get(model.eval(pm.accessor(TRIALP(), 'state')(run.PROTOS.arr[i]), model_completion=True).as_long(), 'STATE_UNSPECIFIED') for i in range(n)]
+    return out
